@@ -202,6 +202,8 @@ static int32_t rd_open(struct jls_rd_s ** instance, const char * path, bool repa
             }
         }
 
+        // The pointer repair leaves the position wherever it last read: append, never overwrite.
+        GOE(jls_raw_seek_end(core->raw));
         GOE(jls_core_wr_end(core));
         // The repair changed links and appended chunks.  Read the repaired file
         // from the start, exactly as every later open will.
